@@ -40,7 +40,8 @@ def _rand_world(rnd, n, setup_p=0.0, debug_p=0.0, fail_p=0.0, tags=False, maxc=2
     es = rnd.choice(list(shapes(n)))
     nodes = []
     for i in range(n):
-        deps = [(NAMES[a], []) for a, b in es if b == i]
+        # a dependency may be used through a key path (r["t"], r["k"]["f"]): every value is a dict that has these keys
+        deps = [(NAMES[a], rnd.choice([[], [], [], ["t"], ["k", "f"]])) for a, b in es if b == i]
         nd = dict(id=NAMES[i], deps=deps, prio=rnd.choice([0, 1, 2]), seq=rnd.random() < 0.15, res=rnd.choice(["thread", "thread", "main", "async"]))
         nodes.append(nd)
     # setup nodes: only nodes all of whose deps are setup nodes
@@ -49,6 +50,10 @@ def _rand_world(rnd, n, setup_p=0.0, debug_p=0.0, fail_p=0.0, tags=False, maxc=2
             nd["setup"] = True
             if rnd.random() < 0.3:
                 nd["value"] = None  # a side-effect-only setup node
+    # (the None of a side-effect-only node has no parts: it is only used whole)
+    whole = {nd["id"] for nd in nodes if "value" in nd}
+    for nd in nodes:
+        nd["deps"] = [(d, [] if d in whole else k) for d, k in nd["deps"]]
     # debug nodes: a node all of whose dependents are debug nodes (processed in reverse order)
     for i in range(n - 1, -1, -1):
         nd = nodes[i]
